@@ -170,17 +170,22 @@ func replayReaderOne(sc *rScenario, realB int, seed int64, stepTimeout time.Dura
 
 	var delivered []byte
 	errReported := false
-	eofReported := false
+	closedByUs := false
 	var pending chan callRes
 	cur := map[int32]int{} // gate at which each task currently waits (0 = unknown)
+	freeRun := false       // after a divergence from the model: gates open, only the API calls are issued
+	var driftInfo [2]string
+	driftStep := 0
+	evSeen := 0
+	cancelPublished := false
 
 	defer func() {
 		sched.Free()
 		if pending != nil {
 			select {
 			case <-pending:
-			case <-time.After(10 * time.Second):
-				res.Status, res.Pred, res.Detail = "violation", "termination", "Read did not return within 10 s after all gates were opened"
+			case <-time.After(6 * time.Second):
+				res.Status, res.Pred, res.Detail = "violation", "termination", "Read did not return within 6 s after all gates were opened"
 			}
 		}
 		if res.Status != "match" {
@@ -194,16 +199,53 @@ func replayReaderOne(sc *rScenario, realB int, seed int64, stepTimeout time.Dura
 	}()
 
 	fail := func(i int, status, pred, detail string) {
+		if status == "drift" && !freeRun {
+			freeRun = true
+			driftInfo = [2]string{pred, detail}
+			driftStep = i
+			sched.Free()
+			return
+		}
+		if status == "drift" {
+			return
+		}
 		res.Status, res.Pred, res.Detail, res.Step = status, pred, detail, i
 	}
 
-	// checkReturn compares a completed call with the model and evaluates the property predicates
-	checkReturn := func(i int, cr callRes, exp rExp) bool {
+	// protocol predicate that is exact while the gates impose a total order (C07): once a task has published
+	// a failure or the end of the stream, no task acquires the shared stream any more
+	scanEvents := func(i int) bool {
+		evs := rec.Events()
+		for ; evSeen < len(evs); evSeen++ {
+			e := evs[evSeen]
+			if e.Pt == kio.VH_D_FIN1 && e.B == -1 {
+				cancelPublished = true
+			}
+			if e.Pt == kio.VH_D_SEEN && e.A != -1 && cancelPublished && !freeRun {
+				fail(i, "violation", "C07_acquire_after_cancel", fmt.Sprintf("task %d acquired the shared stream after a failure / end of stream was published", e.ID))
+				return false
+			}
+		}
+		return true
+	}
+
+	// judge evaluates the property predicates on a completed call (independent of the model)
+	judge := func(i int, cr callRes) bool {
 		cls := kz.Class(cr.err)
+		if cr.n < 0 || cr.n > len(cr.buf) {
+			fail(i, "violation", "C17_count", fmt.Sprintf("Read returned n=%d for a buffer of %d", cr.n, len(cr.buf)))
+			return false
+		}
 		got := cr.buf[:cr.n]
 		off := len(delivered)
 		delivered = append(delivered, got...)
-		// property predicates on real values (C05/C02/C09/C11): independent of the model
+		if closedByUs {
+			if cr.n > 0 || cls == "none" && len(cr.buf) > 0 {
+				fail(i, "violation", "C17_read_after_close", fmt.Sprintf("after Close: n=%d class=%s", cr.n, cls))
+				return false
+			}
+			return true
+		}
 		if len(delivered) > len(expected) || !bytes.Equal(delivered[off:], expected[off:off+len(got)]) {
 			fail(i, "violation", "R_Prefix", fmt.Sprintf("Read returned %d bytes at offset %d that are not the expected bytes", cr.n, off))
 			return false
@@ -216,26 +258,70 @@ func replayReaderOne(sc *rScenario, realB int, seed int64, stepTimeout time.Dura
 			fail(i, "violation", "R_EOFOnlyAtEnd", fmt.Sprintf("clean EOF after %d of %d bytes, clean wire=%v", len(delivered), len(expected), wireClean(sc.Cfg)))
 			return false
 		}
+		if cls == "err" && wireClean(sc.Cfg) {
+			fail(i, "violation", "R_CleanStreamFails", "a Read failed on an undamaged complete stream: "+cr.err.Error())
+			return false
+		}
 		if cls == "err" {
 			errReported = true
 		}
-		if cls == "eof" {
-			eofReported = true
+		return true
+	}
+
+	checkReturn := func(i int, cr callRes, exp rExp) bool {
+		if !judge(i, cr) {
+			return false
 		}
-		// model conformance
+		if freeRun {
+			return true
+		}
+		cls := kz.Class(cr.err)
 		mn, _ := exp.Ret["n"].(float64)
 		me, _ := exp.Ret["err"].(string)
 		if int(mn)*S != cr.n || me != cls {
 			fail(i, "drift", "ret", fmt.Sprintf("model returns (%d,%s), code returns (%d,%s: %v)", int(mn)*S, me, cr.n, cls, cr.err))
-			return false
 		}
 		return true
 	}
-	_ = eofReported
+
+	waitPending := func(i int) bool {
+		if pending == nil {
+			return true
+		}
+		select {
+		case cr := <-pending:
+			pending = nil
+			return judge(i, cr)
+		case <-time.After(6 * time.Second):
+			res.Status, res.Pred, res.Detail, res.Step = "violation", "termination", "Read did not return within 6 s with all gates open", i
+			pending = nil
+			return false
+		}
+	}
 
 	prev := sc.Init
 	for i, st := range sc.Steps {
 		exp := sc.Exp[i]
+		if freeRun {
+			switch st.A {
+			case "ReadBegin":
+				if !waitPending(i) {
+					return
+				}
+				buf := make([]byte, st.X[0]*S)
+				m, e := r.Read(buf)
+				if !judge(i, callRes{m, e, buf}) {
+					return
+				}
+			case "Close":
+				if !waitPending(i) {
+					return
+				}
+				r.Close()
+				closedByUs = true
+			}
+			continue
+		}
 		switch st.A {
 		case "ReadBegin":
 			if pending != nil {
@@ -252,8 +338,9 @@ func replayReaderOne(sc *rScenario, realB int, seed int64, stepTimeout time.Dura
 			pending = ch
 		case "Close":
 			e := r.Close()
+			closedByUs = true
 			if e != nil {
-				fail(i, "drift", "close", "Close returned "+e.Error())
+				fail(i, "violation", "C17_close_fails", "Close returned "+e.Error())
 				return
 			}
 		case "ReadLoop", "StartBatch", "Join", "Terminated":
@@ -266,14 +353,14 @@ func replayReaderOne(sc *rScenario, realB int, seed int64, stepTimeout time.Dura
 				pt, _, done := sched.WaitAt(id, stepTimeout)
 				if pt == 0 || done {
 					fail(i, "drift", "gate", fmt.Sprintf("task %d did not reach its first gate", id))
-					return
+					continue
 				}
 				cur[id] = pt
 			}
 			want := decodeGateOfPc[prev.Tpc[fmt.Sprint(t)]]
 			if cur[id] != want {
 				fail(i, "drift", "gate", fmt.Sprintf("task %d waits at %s, model pc %s", id, hk.Names[cur[id]], prev.Tpc[fmt.Sprint(t)]))
-				return
+				continue
 			}
 			sched.Release(id)
 			pt, _, _ := sched.WaitAt(id, stepTimeout)
@@ -283,10 +370,13 @@ func replayReaderOne(sc *rScenario, realB int, seed int64, stepTimeout time.Dura
 				return
 			}
 			cur[id] = pt
+			if !scanEvents(i) {
+				return
+			}
 			wantNext := decodeGateOfPc[exp.Tpc[fmt.Sprint(t)]]
 			if pt != wantNext {
 				fail(i, "drift", "gate", fmt.Sprintf("after %s(%d) task %d is at %s, model pc %s", st.A, t, id, hk.Names[pt], exp.Tpc[fmt.Sprint(t)]))
-				return
+				continue
 			}
 			if st.A == "Fin" {
 				// counter value after the deferred function, as seen by the hook
@@ -295,7 +385,6 @@ func replayReaderOne(sc *rScenario, realB int, seed int64, stepTimeout time.Dura
 					if evs[k].Pt == kio.VH_D_FIN1 && evs[k].ID == id {
 						if int(evs[k].B) != exp.Counter {
 							fail(i, "drift", "counter", fmt.Sprintf("after Fin(%d) counter is %d, model %d", t, evs[k].B, exp.Counter))
-							return
 						}
 						break
 					}
@@ -306,7 +395,7 @@ func replayReaderOne(sc *rScenario, realB int, seed int64, stepTimeout time.Dura
 			return
 		}
 		// did the pending call return in the model at this step ?
-		if pending != nil && exp.Rpc == "idle" && st.A != "Close" {
+		if !freeRun && pending != nil && exp.Rpc == "idle" && st.A != "Close" {
 			select {
 			case cr := <-pending:
 				pending = nil
@@ -320,25 +409,38 @@ func replayReaderOne(sc *rScenario, realB int, seed int64, stepTimeout time.Dura
 		}
 		prev = exp
 	}
-	// path ended: let everything run to completion and check the predicates on the final outcome
-	if pending != nil {
-		sched.Free()
-		select {
-		case cr := <-pending:
-			pending = nil
-			cls := kz.Class(cr.err)
-			got := cr.buf[:cr.n]
-			off := len(delivered)
-			delivered = append(delivered, got...)
-			if len(delivered) > len(expected) || !bytes.Equal(delivered[off:], expected[off:off+len(got)]) {
-				fail(len(sc.Steps), "violation", "R_Prefix", "final free-running Read returned unexpected bytes")
-			} else if errReported && (cr.n > 0 || cls == "eof") {
-				fail(len(sc.Steps), "violation", "R_NothingAfterError", "data or EOF after an error (final call)")
+	// the path ended: open the gates, let the pending call finish, then complete the history as a caller would
+	// (read to the end) and judge everything with the property predicates
+	sched.Free()
+	wasFree := freeRun
+	freeRun = true
+	if !waitPending(len(sc.Steps)) {
+		return
+	}
+	if !closedByUs {
+		for k := 0; k < 400; k++ {
+			buf := make([]byte, 3*S)
+			m, e := r.Read(buf)
+			if !judge(len(sc.Steps), callRes{m, e, buf}) {
+				return
 			}
-		case <-time.After(10 * time.Second):
-			fail(len(sc.Steps), "violation", "termination", "Read did not return within 10 s after all gates were opened")
-			pending = nil
+			if e != nil {
+				// one more call: what follows an error or the end must still be right
+				buf2 := make([]byte, S)
+				m2, e2 := r.Read(buf2)
+				if !judge(len(sc.Steps), callRes{m2, e2, buf2}) {
+					return
+				}
+				break
+			}
 		}
+		if !errReported && wireClean(sc.Cfg) && len(delivered) != len(expected) {
+			fail(len(sc.Steps), "violation", "R_CompleteAtEOF", fmt.Sprintf("complete stream: %d of %d bytes delivered at EOF", len(delivered), len(expected)))
+			return
+		}
+	}
+	if wasFree && res.Status == "match" {
+		res.Status, res.Pred, res.Detail, res.Step = "drift", driftInfo[0], driftInfo[1], driftStep
 	}
 	return
 }
@@ -397,7 +499,7 @@ func cmdReplayReader(args []string) int {
 		go func() {
 			defer wg.Done()
 			for j := range jobs {
-				r := replayReaderOne(j.s, realB, seed+int64(j.n), 5*time.Second)
+				r := replayReaderOne(j.s, realB, seed+int64(j.n), 3*time.Second)
 				b, _ := json.Marshal(r)
 				mu.Lock()
 				bw.Write(b)
